@@ -295,6 +295,8 @@ class TlSchemas:
                         length = int.from_bytes(data[i:i + 4], 'little', signed=False)
                         i += 4
                         result[field] = []
+                        if length > len(data) - i:  # every element takes at least one byte: the count cannot outrun the data
+                            raise TlError(f'vector length {length} exceeds the data')
                         for _ in range(length):
                             if sch:
                                 deser, j = self.deserialize(data[i:], False, sch.args)
